@@ -12,7 +12,7 @@ WITNESSES = {'all': ['int-result', 'float-result', 'overflow-outside-claim', 'th
 OPTS = {'quick': {'selfcheck_mod': 25, 'budget_s': 280}, 'thorough': {'selfcheck_mod': 100, 'budget_s': 2400}}
 STEP_LIMIT = 300_000
 BOUNDS = {
-    'quick': 'add/subtract/multiply/divide on 1-3 arguments, every int/float type pattern, each argument a symbolic i64 (all 2^64 values) or symbolic f64 (all values, NaN and infinities included), '
+    'quick': '4 operations x 24 curated concrete tuples (association order, conversion order, rounding, signs, zero divisors); add/subtract/multiply/divide on 1-3 arguments, every int/float type pattern, each argument a symbolic i64 (all 2^64 values) or symbolic f64 (all values, NaN and infinities included), '
              'given literally or through chains of 1-2 bound variables; result compared with the left-to-right fold written as one SMT term (bvadd/bvsub/bvmul/bvsdiv on 64 bits, '
              'fp.add/sub/mul/div RNE, to_fp for converted integers); the value is then unified with an unbound variable, an equal constant and a different constant; '
              'infix texts `$X = L op R` with 1-2 symbolic digits per operand through parse_subgoal. Integer multiply: operands bounded to |x| < 2^31 for the no-overflow side.',
@@ -22,6 +22,9 @@ OUTSIDE = 'integer overflow and integer division by zero (panic paths: counted, 
 ASSUMPTIONS = ['float results are compared numerically: equal under ==, or both NaN']
 
 OPS = ['add', 'subtract', 'multiply', 'divide']
+TUPLES_LIST = [(0.1, 0.2, 10), (1e16, 1, 1e16), (1e300, 1e-300, 1e300), (7, 2, 2.0), (9007199254740993, 1, 0.5), (0.3, 0.1, 0.2), (1e308, 1e308, 1e308),
+               (-7, 2), (7, -2), (-1, 4), (1, 3, 3.0), (2.5, 2, 2), (10, 4, 2.5, 2), (3, 0.0), (-3, 0.0), (0.0, 0.0), (5,), (2.5,), (-0.0,), (1e-320, 1e10, 1e10),
+               (9223372036854775807, 1.0), (-9223372036854775808, 2, 1.5), (6, 3, 2, 1), (100, 7, 7, 7)]
 SYM = {'add': '+', 'subtract': '-', 'multiply': '*', 'divide': '/'}
 
 
@@ -36,6 +39,14 @@ def cases(tier, seed):
                 for ch in chains:
                     if ch and n > 2 and tier == 'quick': continue
                     out.append({'id': '%s(%s) chain %d' % (op, ''.join(pat), ch), 'fam': 'eval', 'op': op, 'pat': ''.join(pat), 'chain': ch})
+    # curated concrete tuples on which association order, conversion order and rounding show (no solver needed)
+    TUPLES = TUPLES_LIST
+    _unused = [(0.1, 0.2, 10), (1e16, 1, 1e16), (1e300, 1e-300, 1e300), (7, 2, 2.0), (9007199254740993, 1, 0.5), (0.3, 0.1, 0.2), (1e308, 1e308, 1e308),
+              (-7, 2), (7, -2), (-1, 4), (1, 3, 3.0), (2.5, 2, 2), (10, 4, 2.5, 2), (3, 0.0), (-3, 0.0), (0.0, 0.0), (5,), (2.5,), (-0.0,), (1e-320, 1e10, 1e10),
+              (9223372036854775807, 1.0), (-9223372036854775808, 2, 1.5), (6, 3, 2, 1), (100, 7, 7, 7)]
+    for op in OPS:
+        for ti, t in enumerate(TUPLES):
+            out.append({'id': '%s%r' % (op, t), 'fam': 'values', 'op': op, 'tuple': ti})
     # unification of the value with the other operand
     for op in OPS:
         for pat in ('ii', 'if', 'fi', 'ff'):
@@ -275,5 +286,38 @@ def run_text(drv, case):
     return {'tags': ['infix-text'], 'note': text}
 
 
+TUPLES_REF = None
+
+
+def run_values(drv, case):
+    m = drv.m
+    env = B.Env(drv)
+    t = _tuples()[case['tuple']]
+    vals = [('float', float(x)) if isinstance(x, float) else ('int', x) for x in t]
+    op = case['op']
+    try:
+        want = fold(m, op, vals)
+        if want[0] == 'int' and not -(1 << 63) <= want[1] < (1 << 63): return {'tags': ['overflow-outside-claim'], 'nontrivial': False}
+    except ZeroDivisionError:
+        return {'tags': ['overflow-outside-claim'], 'nontrivial': False}
+    try:
+        res = drv.evalf(op, [drv.term(v) for v in vals], env.ss)
+    except ScenarioEnd as e:
+        if e.why[0] == 'panic' and all(v[0] == 'int' for v in vals) and ('overflow' in e.why[1] or 'by zero' in e.why[1]):
+            return {'tags': ['overflow-outside-claim'], 'nontrivial': False}
+        raise
+    if not num_equal(m, res, want):
+        raise Violation('wrong-value:%s:values' % op, '%s: evaluates to %s %r, the left-to-right fold is %s %r' % (case['id'], res[0], res[1], want[0], want[1]))
+    return {'tags': ['int-result' if want[0] == 'int' else 'float-result', 'concrete-values'], 'note': case['id']}
+
+
+def _tuples():
+    global TUPLES_REF
+    if TUPLES_REF is None:
+        TUPLES_REF = [c for c in cases('quick', 0) if c.get('fam') == 'values']
+        TUPLES_REF = TUPLES_LIST
+    return TUPLES_REF
+
+
 def run(drv, case):
-    return {'eval': run_eval, 'unify': run_unify, 'text': run_text}[case['fam']](drv, case)
+    return {'eval': run_eval, 'unify': run_unify, 'text': run_text, 'values': run_values}[case['fam']](drv, case)
